@@ -21,6 +21,7 @@ GhostAny == "zz9"
 
 NoDupSeq(q) == \A i, j \in DOMAIN q : i # j => q[i] # q[j]
 GStarts(w, g) ==
+  IF Family = "vol" THEN { StartS("V", <<>>), StartS("V", <<VIdAt(g, 1)>>) } ELSE
   { s \in { StartS("V", <<>>), StartS("E", <<>>),
             StartS("V", <<VIdAt(g, 1)>>), StartS("V", <<VLast(g), GhostRow(w), VIdAt(g, 1)>>),
             StartS("V", <<GhostAny>>),
@@ -41,7 +42,8 @@ GProjs == { FieldsS(<<>>, <<>>), FieldsS(<<"x">>, <<>>),
             St("path"), DistS(<<>>, {}), DistS(<<RLabel>>, {}), St("count") }
 GTruncs == { LimS(1), SkipS(1) }
 
-GAlphabet(g) == Labels \cup GMoves \cup GFilters(g) \cup GMarks \cup GProjs \cup GTruncs
+GAlphabet(g) == IF Family = "vol" THEN { Mov("out", <<>>), Mov("in", <<>>), St("count") } ELSE
+                Labels \cup GMoves \cup GFilters(g) \cup GMarks \cup GProjs \cup GTruncs
 
 \* The id STRING of an edge is not fixed by the property (see Gripper.tla): steps whose result
 \* would depend on it are explored on vertices only; hasId(<edge id>) is explored on edges
